@@ -22,6 +22,24 @@
 Require Import Verif.Model.Base Verif.Model.Path.
 Require Import Verif.Proofs.PathP.
 From Coq Require Import Permutation.
+Require Import Verif.Model.PathRef.
+Require Verif.Gen.Paths Verif.Proofs.GenPathP.
+
+(* ---- the source against the model: underDir and checkpath as they are in /repo now (translated on
+   every run, Gen/Paths.v; every index / slice expression is a possible panic = None) compute the
+   model's [under] and the repaired variant of [checkpath], for every iteration order of
+   knownPathMap (the order of [table]), every list of regexp mappings (abstract), every flag word,
+   working directory and Rel function.  In particular the translated code never panics where the
+   model does not (C18_total). ---- *)
+Theorem C18_gen_under_dir : forall file dir, Paths.under_dir file dir = Some (under file dir).
+Proof. exact GenPathP.gen_under_dir. Qed.
+Print Assumptions C18_gen_under_dir.
+
+Theorem C18_gen_checkpath : forall rel flags table rxs cwd file,
+  Paths.checkpath rel flags table rxs cwd file =
+  checkpath rel true (privacy_on flags) (rx_on flags) table rxs cwd file.
+Proof. exact GenPathP.gen_checkpath. Qed.
+Print Assumptions C18_gen_checkpath.
 
 (* the function never panics: the only partial operations of checkpath are the
    two slice expressions of the /Volumes/ branch (None in the model); everything
